@@ -460,9 +460,8 @@ Definition parse_edge (fuel : nat) (chk : list dd_stmt -> bytes -> option dd_err
   | Err e => Err e
   | Ok (t0, ne0, r1) =>
     if ev_empty t0 ne0 then Err E_expected_path
-    else match t0 with
-    | [] => Err E_empty_path
-    | _ =>
+    else if is_empty t0 then Err E_empty_path
+    else
       let out := canon t0 in
       match chk seen out with
       | Some e => Err e
@@ -517,7 +516,7 @@ Definition parse_edge (fuel : nat) (chk : list dd_stmt -> bytes -> option dd_err
                                        | Err e => Err e
                                        | Ok (key, (v, _), r13) =>
                                          if negb (bytes_eqb key s_restat) then Err E_binding_not_restat
-                                         else Ok (negb (match v with [] => true | _ => false end), r13)
+                                         else Ok (negb (is_empty v), r13)
                                        end
                                      else Ok (false, r12)) with
                               | Err e => Err e
@@ -543,7 +542,6 @@ Definition parse_edge (fuel : nat) (chk : list dd_stmt -> bytes -> option dd_err
           end
         end
       end
-    end
   end.
 
 (* DyndepParser::Parse.  [have] = haveDyndepVersion; [acc] = statements so far, most recent first. *)
